@@ -311,7 +311,9 @@ func (s *KevoServiceServer) TxGet(ctx context.Context, req *pb.TxGetRequest) (*p
 	}
 
 	if len(req.Key) == 0 || len(req.Key) > s.maxKeySize {
-		// For invalid inputs, consider automatically releasing the transaction
+		// For invalid inputs, automatically release the transaction: roll it
+		// back before dropping the handle, or it would keep the database lock
+		tx.Rollback()
 		s.txRegistry.Remove(req.TransactionId)
 		return nil, fmt.Errorf("invalid key size")
 	}
